@@ -30,6 +30,7 @@ from __future__ import annotations
 
 import ast
 import os
+import re
 
 CTORS = {
     'EVar': ('PEVar', ['name']), 'SVar': ('PSVar', ['name']), 'Symbol': ('PSym', ['name']),
@@ -55,6 +56,10 @@ PRIMS = {('Implies', 'unwrap'): ('unwrap_imp', 'optpair'), ('App', 'unwrap'): ('
          ('EVar', 'deconstruct'): ('decon_evar', 'optN'), ('SVar', 'deconstruct'): ('decon_svar', 'optN'),
          ('Symbol', 'deconstruct'): ('decon_sym', 'optN'), ('Exists', 'deconstruct'): ('decon_ex', 'optNpat'),
          ('Mu', 'deconstruct'): ('decon_mu', 'optNpat')}
+BINDER_T = {}      # generated binder -> type tag (for the parameters of the auxiliary continuation definitions)
+AUX = []           # auxiliary top-level definitions (text), in dependency order
+COQ_TAG = {'pat': 'ppat', 'dict': 'delta', 'N': 'N', 'bool': 'bool', 'optN': 'option N', 'optpair': 'option (ppat * ppat)',
+           'pair': '(ppat * ppat)', 'optNpat': 'option (N * ppat)', 'Npat': '(N * ppat)', 'optdict': 'option delta'}
 UNOPT = {'optpair': 'pair', 'optN': 'N', 'optNpat': 'Npat', 'optdict': 'dict'}
 COQ_T = {'N': 'N', 'bool': 'bool', 'pat': 'ppat', 'dict': 'delta', 'set': 'list N'}
 
@@ -78,9 +83,12 @@ class Ctx:
         self.self_term = 'self'
         self.refined = {}      # python name -> class (after isinstance), its fields are bound as s_<field>
 
-    def fresh(self, base='c'):
+    def fresh(self, base='c', ty=None):
         self.n += 1
-        return f'{base}{self.n}'
+        name = f'{base}{self.n}'
+        if ty is not None:
+            BINDER_T[name] = ty
+        return name
 
     def copy(self):
         c = Ctx(self.cls, self.classes, self.fuel)
@@ -165,7 +173,7 @@ def tr(ctx, e, k):
                         t = f'(N.eqb {ta} {tb})'
                         return k(t if isinstance(op, ast.Eq) else f'(negb {t})', 'bool')
                     if tya == 'pat' and tyb == 'pat':
-                        c = ctx.fresh()
+                        c = ctx.fresh('c', 'bool')
                         r = c if isinstance(op, ast.Eq) else f'(negb {c})'
                         return f'bind (py_eq flags_current n {ta} {tb}) (fun {c} => {k(r, "bool")})'
                     die(e, f'comparison of {tya} and {tyb}')
@@ -232,7 +240,7 @@ def tr(ctx, e, k):
                 if tyd == 'dict' and tyk == 'N':
                     if getattr(k, 'tail', False):
                         return f'alookup {tk} {td}'
-                    c = ctx.fresh()
+                    c = ctx.fresh('c', 'pat')
                     return f'bind (alookup {tk} {td}) (fun {c} => {k(c, "pat")})'
                 die(e, f'{tyd}[{tyk}]')
             return tr(ctx, e.slice, k2)
@@ -283,7 +291,7 @@ def tr(ctx, e, k):
                         call = 'src_match_single n ' + ' '.join(acc)
                         if getattr(k, 'tail', False):
                             return call
-                        c = ctx.fresh()
+                        c = ctx.fresh('c', 'optdict')
                         return f'bind ({call}) (fun {c} => {k(c, "optdict")})'
                     want = ['pat', 'pat', 'dict'][i]
                     return tr(ctx, e.args[i], lambda t, ty: a3(i + 1, acc + [t]) if ty == want else die(e.args[i], f'{ty} for {want}'))
@@ -326,7 +334,7 @@ def tr(ctx, e, k):
                 def kprim(t, ty):
                     if ty != 'pat':
                         die(e, 'primitive on a non-pattern')
-                    c = ctx.fresh()
+                    c = ctx.fresh('c', pty)
                     return f'bind ({prim} flags_current n {t}) (fun {c} => {k(c, pty)})'
                 return tr(ctx, e.args[0], kprim)
             if isinstance(f.value, ast.Name) and f.value.id in ctx.refined and m in ('simplify', 'can_be_replaced_by'):
@@ -398,7 +406,7 @@ def tr(ctx, e, k):
                                 return k(f'({call})', rty)
                             if getattr(k, 'tail', False):
                                 return call
-                            c = ctx.fresh()
+                            c = ctx.fresh('c', rty)
                             return f'bind ({call}) (fun {c} => {k(c, rty)})'
                         return tr(ctx, e.args[i], lambda t, ty: args(i + 1, acc + [t]) if ty == params[i][1]
                                   else die(e.args[i], f'argument {params[i][0]}: {ty} for {params[i][1]}'))
@@ -574,6 +582,31 @@ def walrus_tests(test):
     return None
 
 
+
+def aux_cont(ctx, text):
+    """the code after a two-way test is shared by both outcomes: emit it once as an auxiliary top-level definition
+    (parameters: the recursive function, the fuel, the variables in scope it mentions) and return the call"""
+    at = ctx.n
+    free = []
+    for m in re.finditer(r'\b(a_[a-z]+|(?:c|v|w|kv|st|e)\d+)\b', text):
+        name = m.group(1)
+        if name in free:
+            continue
+        if name.startswith('a_'):
+            free.append(name)
+        else:
+            num = int(re.search(r'\d+$', name).group(0))
+            if num <= at and name in BINDER_T:
+                free.append(name)
+    PARAM_T = {'a_pattern': 'pat', 'a_instance': 'pat', 'a_extend': 'dict'}
+    params = ' '.join(f'({x}:{COQ_TAG[PARAM_T.get(x) or BINDER_T[x]]})' for x in free)
+    name = f'src_match_single_k{len(AUX) + 1}'
+    body = text.replace('src_match_single n', 'rec')
+    AUX.append((name, f'Definition {name} (rec:ppat -> ppat -> delta -> option (option delta)) (n:nat) {params} '
+                      f': option (option delta) :=\n  {body}.'))
+    return '(' + ' '.join([name, '(src_match_single n)', 'n'] + free) + ')'
+
+
 def fblock(ctx, stmts, cont):
     if not stmts:
         if cont is None:
@@ -605,7 +638,7 @@ def fblock(ctx, stmts, cont):
             def upd(td, tyd, tk, tyk, tv, tyv):
                 if (tyd, tyk, tyv) != ('dict', 'N', 'pat'):
                     die(s, 'dict update')
-                v = ctx.fresh('v')
+                v = ctx.fresh('v', 'dict')
                 ctx.env[d] = (v, 'dict')
                 return f'(let {v} := aset {tk} {tv} {td} in {after(ctx)})'
             return tr(ctx, tgt.value, kd)
@@ -613,7 +646,7 @@ def fblock(ctx, stmts, cont):
             die(s, 'assignment target')
 
         def ka(t, ty):
-            v = ctx.fresh('v')
+            v = ctx.fresh('v', ty)
             ctx.env[tgt.id] = (v, ty)
             ctx.refined.pop(tgt.id, None)
             return f'(let {v} := {t} in {after(ctx)})'
@@ -636,9 +669,11 @@ def fblock(ctx, stmts, cont):
         if w is not None:
             if s.orelse:
                 die(s, 'else after a walrus test')
-            rk = ctx.fresh('rest')
-            els = after(ctx.copy())
+            c0 = ctx.copy()
+            els = after(c0)
             c1 = ctx.copy()
+            c1.n = max(c1.n, c0.n)
+            rk = aux_cont(ctx, els)
 
             def chain(i):
                 if i == len(w):
@@ -648,34 +683,36 @@ def fblock(ctx, stmts, cont):
                 def kw(t, ty):
                     if ty not in UNOPT:
                         die(val, f'truth value of {ty}')
-                    v = c1.fresh('w')
+                    v = c1.fresh('w', UNOPT[ty])
                     c1.env[name] = (v, UNOPT[ty])
                     return f'(match {t} with | Some {v} => {chain(i + 1)} | None => {rk} end)'
                 return tr(c1, val, kw)
             body = chain(0)
             ctx.n = max(ctx.n, c1.n)
-            return f'(let {rk} := {els} in {body})'
+            return body
         nt = none_tests(test)
         if nt is not None:
             if s.orelse:
                 die(s, 'else after an `is not None` test')
-            rk = ctx.fresh('rest')
-            els = after(ctx.copy())
+            c0 = ctx.copy()
+            els = after(c0)
             c1 = ctx.copy()
+            c1.n = max(c1.n, c0.n)
+            rk = aux_cont(ctx, els)
             inner = None
             binds = []
             for name in nt:
                 if name not in c1.env or c1.env[name][1] not in UNOPT:
                     die(test, f'`is not None` on {name}')
                 t, ty = c1.env[name]
-                v = c1.fresh('w')
+                v = c1.fresh('w', UNOPT[ty])
                 binds.append((t, v))
                 c1.env[name] = (v, UNOPT[ty])
             inner = fblock(c1, s.body, after)
             for t, v in reversed(binds):
                 inner = f'(match {t} with | Some {v} => {inner} | None => {rk} end)'
             ctx.n = max(ctx.n, c1.n)
-            return f'(let {rk} := {els} in {inner})'
+            return inner
         # X is None
         if (isinstance(test, ast.Compare) and len(test.ops) == 1 and isinstance(test.ops[0], ast.Is) and isinstance(test.left, ast.Name)
                 and isinstance(test.comparators[0], ast.Constant) and test.comparators[0].value is None):
@@ -685,7 +722,7 @@ def fblock(ctx, stmts, cont):
             t, ty = ctx.env[name]
             a = fblock(ctx.copy(), s.body, after)
             c2 = ctx.copy()
-            v = c2.fresh('w')
+            v = c2.fresh('w', UNOPT[ty])
             c2.env[name] = (v, UNOPT[ty])
             b = after(c2)
             ctx.n = max(ctx.n, c2.n)
@@ -733,7 +770,13 @@ def gen_matching(tree, classes):
         raise SystemExit('pypattern translator: match_single: unexpected signature / decorators')
     ctx = Ctx(None, classes, True)
     ctx.env = {'pattern': ('a_pattern', 'pat'), 'instance': ('a_instance', 'pat'), 'extend': ('a_extend', 'dict')}
+    del AUX[:]
+    BINDER_T.clear()
     body = fblock(ctx, strip_doc(f.body), None)
+    out.append('(* continuations of match_single shared by both outcomes of a test (one definition each, innermost first) *)')
+    for _name, text in AUX:
+        out.append(text)
+    out.append('#[global] Hint Unfold ' + ' '.join(n for n, _ in AUX) + ' : pysrc.\n')
     out.append('(* match_single(pattern, instance, extend): extend=None and extend={} are both the empty seed; Python None = inner None *)\n'
                'Fixpoint src_match_single (n:nat) (a_pattern a_instance:ppat) (a_extend:delta) {struct n} : option (option delta) :=\n'
                f'  match n with O => None | S n =>\n  {body}\n  end.\n')
